@@ -3,7 +3,7 @@ import Driver.Common
 /-! `hwmodel wrap`: one call per line, `key=value` tokens (see harness/comp_wrap.py); the harness adds
 `dout=` / `dbind=`: what the *undecorated* function returned / raised and how it saw its arguments when called
 directly with the same arguments – the model routes them through the wrapper.
-out: `<out>|<bind>|<seen>|<after>|<where>|<records>|<meta>` -/
+out: `<out>|<bind>|<seen>|<after>|<where>|<records>|<meta>|<recv>` -/
 namespace Driver.Wrap
 open Haiway.Wrap
 
@@ -98,24 +98,35 @@ def runCase (line : String) : String :=
     let m := decorate d f
     let bits := (if m.name = f.name then "1" else "0") ++ (if m.doc = f.doc then "1" else "0")
       ++ (if m.wrapped = f.id then "1" else "0")
-    s!"-|-|-|-|-|-|{bits}{if form = "fn" then "" else bits}"
+    s!"-|-|-|-|-|-|{bits}{if form = "fn" then "" else bits}|-"
   else
   let ran := dbind ≠ "-"
   let outcome : Outcome := match dout.splitOn ":" with
     | "e" :: cls :: _ => .raise { cls := clsOfName cls, obj := 1 }
     | _ => .ret 1
-  let f : Fn := { id := 7, name := 98, doc := if field toks "doc" "1" = "1" then some 1 else none,
-                  run := if ran then scripted outcome leak rec_ else unbound outcome }
+  let doc := if field toks "doc" "1" = "1" then some 1 else none
+  -- receivers of the successive calls (form=meth): a 1, c 2, b 3, s 4; functions: one call, receiver 0
+  let recvToks := if form = "meth" then (field toks "recv" "a").splitOn "," else if form = "cls" then ["a"] else ["-"]
+  let recvId := fun (t : String) => if t = "a" then 1 else if t = "c" then 2 else if t = "b" then 3 else if t = "s" then 4 else 0
+  let recvName := fun (n : Nat) => if n = 1 then "a" else if n = 2 then "c" else if n = 3 then "b" else if n = 4 then "s" else "?"
+  let m : Method := if ran then scriptedMethod 7 98 doc outcome leak rec_
+    else fun _ => { id := 7, name := 98, doc := doc, run := unbound outcome }
   let c0 : Ctx := if root = "1" then { state := some 0, scope := some 0 } else {}
   let w0 : World := if root = "1" then { nodes := [{ name := 99, parent := none }] } else {}
   let cw := enterSite (site.map (fun p => ((if p.1 = 'u' then 1 else 0), p.2))) 0 c0 w0
   let isAsyn := deco.startsWith "asyn"
   let isTraced := deco.startsWith "traced"
-  let r := if isAsyn then callAsynchronous f 0 cw.1 cw.2
-    else if isTraced then callTraced f 0 cw.1 cw.2
-    else callWrapAsync f 0 cw.1 cw.2
+  let calls := recvToks.map (fun t => (recvId t, 0))
+  -- cancel=1: the harness runs the call as a task of its own (to cancel it while suspended): a task works on a copy
+  -- of its creator's context, so whatever the call does to the context stays in that task
+  let inTask := fun (call : Fn → Nat → Ctx → World → Outcome × Ctx × World) =>
+    if field toks "cancel" "0" = "1" then (fun f a c w => ((call f a c w).1, c, (call f a c w).2.2)) else call
+  let rs := if isAsyn then callSeq (inTask callAsynchronous) m calls cw.1 cw.2
+    else if isTraced then callSeq (inTask callTraced) m calls cw.1 cw.2
+    else callSeq (inTask callWrapAsync) m calls cw.1 cw.2
+  let r : Outcome × Ctx × World := (rs.1.getLast?.getD outcome, rs.2.1, rs.2.2)
   let w := r.2.2
-  let seen := match w.seen.head? with
+  let seen := match w.seen.getLast? with
     | some c => showFP fname w c
     | none => "-"
   let after := showFP fname w r.2.1
@@ -139,6 +150,9 @@ def runCase (line : String) : String :=
       | some nd => showNats (metricsOf nd.recs)
       | none => "-"
   let records := if root = "1" then s!"A={aRepr}~R={rRepr}~M={showNats (mergedMetrics w.nodes.length w 0)}~own={own}" else "-"
-  s!"{showOutcome dout r.1}|{dbind}|{seen}|{after}|{where_}|{records}|111"
+  let recvOut := if form = "fn" then "-"
+    else ",".intercalate (w.recvs.map recvName)
+      ++ s!";ovr={(recvToks.filter (· = "s")).length}"
+  s!"{showOutcome dout r.1}|{dbind}|{seen}|{after}|{where_}|{records}|111|{recvOut}"
 
 end Driver.Wrap
